@@ -340,9 +340,10 @@ func oC13(ix *Index) []Violation {
 // that has a live pending job from every possible cursor position.
 func oC15(ix *Index) []Violation {
 	var out []Violation
-	nq := len(ix.QKinds)
-	model := make([][]*JobRec, nq)
+	nqAll := len(ix.QKinds)
+	model := make([][]*JobRec, nqAll)
 	inModel := map[int]bool{}
+	prevQ := -1
 	cancelled := func(j *JobRec, pos int) bool {
 		for _, cl := range j.Closes {
 			if cl.Returned() && cl.RetEv.OK && cl.Ret < pos {
@@ -357,7 +358,7 @@ func oC15(ix *Index) []Violation {
 	sync := func(pos int) {
 		for _, n := range ix.JobNums {
 			j := ix.Jobs[n]
-			if inModel[n] || j.Q < 0 || j.Q >= nq || j.Accepted != 1 || j.It == nil {
+			if inModel[n] || j.Q < 0 || j.Q >= nqAll || j.Accepted != 1 || j.It == nil {
 				continue
 			}
 			if !j.Pre && (j.Add.Ret < 0 || j.Add.Ret >= pos) {
@@ -388,11 +389,28 @@ func oC15(ix *Index) []Violation {
 		if !(a.Pre || (a.Add.Ret >= 0 && a.Add.Ret < pos)) {
 			return out // dispatched before its Add returned
 		}
+		// queues bound so far (a queue bound later joins the end of the binding order; the cursor stays)
+		nq := len(ix.C.Cfg.Queues)
+		for _, b := range ix.ByOp["bind"] {
+			if b.Call < pos && b.end(ix.N) > pos {
+				return out // a bind is in progress
+			}
+			if b.Returned() && b.Ret < pos {
+				nq++
+			}
+		}
+		if nq > nqAll {
+			nq = nqAll
+		}
+		if a.Q >= nq {
+			out = append(out, v("C15", "phantom", "dispatch at %d started job %d of queue %d, which is not bound yet", pos, a.N, a.Q))
+			return out
+		}
 		sync(pos)
 		live := make([]int, nq)  // pending jobs that can still run
 		ghost := make([]bool, nq) // the queue holds a cancelled pending job
 		all := make([]int, nq)
-		for q := range model {
+		for q := range model[:nq] {
 			for _, j := range model[q] {
 				all[q]++
 				if cancelled(j, pos) {
@@ -420,7 +438,10 @@ func oC15(ix *Index) []Violation {
 		}
 		switch strat {
 		case 0:
-			starts := map[int]bool{rr: true}
+			starts := map[int]bool{rr % nq: true}
+			if prevQ >= 0 && prevQ+1 < nq {
+				starts[prevQ+1] = true // strictly cyclic order when a queue was bound after the cursor wrapped
+			}
 			for q := range ghost {
 				if ghost[q] {
 					starts[(q+1)%nq] = true
@@ -444,6 +465,7 @@ func oC15(ix *Index) []Violation {
 				return out
 			}
 			rr = (a.Q + 1) % nq
+			prevQ = a.Q
 		default:
 			// lengths include cancelled pending jobs only if the queue still holds them, which is not
 			// observable: a queue's length lies between its live and its total count
@@ -480,4 +502,41 @@ func renamed(prop, prefix string, o oracleFn) oracleFn {
 		}
 		return vs
 	}
+}
+
+// oC18Tune: "TunePool changes how many jobs can run simultaneously ... without losing or duplicating
+// jobs" - judged on programs in which a TunePool call succeeded.
+func oC18Tune(ix *Index) []Violation {
+	tuned := false
+	for _, c := range ix.ByOp["tune"] {
+		if c.Returned() && c.RetEv.E == "" {
+			tuned = true
+		}
+	}
+	if !tuned {
+		return nil
+	}
+	var out []Violation
+	for _, n := range ix.JobNums {
+		j := ix.Jobs[n]
+		if len(j.Enters) > 1 {
+			out = append(out, v("C18", "tune-duplicated-job", "job %d entered %d times in a program with a successful TunePool: %s", n, len(j.Enters), ix.describe(j.Enters...)))
+		}
+	}
+	if ix.finalRunning() && !ix.R.Rep.Deadlock {
+		for _, n := range ix.JobNums {
+			j := ix.Jobs[n]
+			if j.Accepted == 1 && len(j.Enters) == 0 && !ix.optional(j, ix.N) {
+				out = append(out, v("C18", "tune-lost-job", "accepted job %d never ran although the worker is Running and at rest, after a successful TunePool; final=%+v", n, *ix.Final))
+			}
+		}
+	}
+	if ix.R.Rep.Deadlock && len(ix.Quiesc) > 0 {
+		// nothing can run any more: if the library still counts a job as processing while no
+		// invocation is in progress and none is parked on a gate, a dispatched job was lost in the pool
+		if sn := ix.H[ix.Quiesc[len(ix.Quiesc)-1]].Sn; sn != nil && sn.InFlight == 0 && sn.Gates == 0 && sn.Proc > 0 {
+			out = append(out, v("C18", "tune-lost-job", "deadlock after a successful TunePool with NumProcessing=%d while no invocation is in progress: a dispatched job never reached a pool worker; blocked: %v", sn.Proc, ix.R.Rep.Blocked))
+		}
+	}
+	return out
 }
